@@ -74,6 +74,9 @@ def generate(seed, tier="quick"):
     tasks = []
     tw = {"record": 5, "stimulate": 3, "clamp": 0 if passive and o.random() < 0.5 else 2}
     tw = {k: v for k, v in tw.items() if v}
+    if o.random() < 0.4:
+        # deletions through views between the tasks (history): the survivors must keep their own signals and rows
+        tw.update({"delete_stimuli": 1, "delete_clamps": 1, "delete_recordings": 1})
     clamp_len = o.choice([Ls, Ls, Ls + o.randint(1, 4)])
     for _ in range(o.randint(3, 10)):
         op = gen_op(o, dw, tw, cfg)
@@ -281,7 +284,8 @@ def execute(program):
         if w2.violations:
             w.violations.extend(w2.violations)
             return res()
-        commute = all(v_ == "accepted" for v_ in w.task_outcome.values()) and all(v_ == "accepted" for v_ in w2.task_outcome.values())
+        commute = (all(v_ == "accepted" for v_ in w.task_outcome.values()) and all(v_ == "accepted" for v_ in w2.task_outcome.values())
+                   and not any(t_["op"].startswith("delete_") for t_ in program["tasks"]))
         if not commute:
             # a refused task (e.g. an input of another duration than the first one of its key) makes the outcome
             # legitimately order-dependent: nothing is asserted about such interleavings
